@@ -48,6 +48,16 @@
 //     equality shortcut against Value() (or `f != nil && v == *f` for the field Value() tests first);
 //     a shortcut whose notion of the current value ignores fields Value() consults is a violation.
 //
+//   - FRESH-1 (read side) <T>.ToMessage — every returned slice is newly allocated in the call or is the
+//     result of the type's own Value(); never storage the parameter keeps and re-uses.
+//
+//   - CONC-8  <function>:own-result — data written to an http.ResponseWriter by code that reaches a locked
+//     entry point is not read from server struct fields that request-handling code writes (in-flight /
+//     cached results of other requests), unless the object is a fresh local of this activation.
+//
+//   - CONC-9  nodes.<function>:single-threaded — no go statement in the functions of package nodes reachable
+//     from its Value() methods.
+//
 // Evidence also lists (notes, coverage.other_instance_methods) what the other Instance methods touch
 // without the mutex and which HTTP handlers reach them; the property does not quantify over them.
 package c13
